@@ -261,7 +261,14 @@ def read_context(path, lineno, before=40):
     if "from" in target:            # single-step transition records (seat manager / gate): the line is the whole case
         return {"line": target}
     same = [x for x in out if x.get("tr") == target.get("tr")]
-    slim = [{k: x.get(k) for k in ("n", "ev", "a", "res")} for x in same[:-1]]
+    slim = []
+    for x in same[:-1]:
+        y = {k: x.get(k) for k in ("n", "ev", "a", "res")}
+        st = x.get("st") or {}
+        if x.get("ev") == "cb:updated" and st.get("status") in ("table_game_settled", "table_game_opened"):
+            y["players"] = [[p["id"], p["seat"], p["bank"], p["in"], p["part"], p["pos"], p["stats"]] for p in st.get("players", [])]
+            y["gpi"] = st.get("gpi")
+        slim.append(y)
     res = {"line": target, "preceding": slim}
     # table traces begin with a "scenario" line that holds the whole scenario: keep it so the case can be re-run
     try:
